@@ -3,7 +3,8 @@ from __future__ import annotations
 
 from ..report import Report
 from ..specs.kernels import CATALOGUE, Straddle, Full, IntRing, Zones
-from ..store import interior_point
+from ..store import interior_point, roots_of
+from ..specs.ops import at, zero
 from ..summaries import expr_at_cells
 from .common import entry_summary, short
 from ..pwtools import pw_equal
@@ -40,6 +41,11 @@ def check_entry(S, e, rep, pid="C13", rules=("a", "b", "c")):
         rep.ob(pid + ".call", lab, False, "%s: %s (at %s)" % (kind, p.msg, p.where), key="%s.call|%s|%s|%s" % (pid, lab, kind, p.msg[:80]))
     if sm.problems:
         return sm
+    if sm.unwritten:
+        for name in sm.unwritten:
+            rep.ob(pid + ".a", "%s:%s" % (lab, name), False, "documented output %s is written by no kernel launch or store of the call (%s)" % (name, e.doc),
+                   key="%s.a|%s|%s|never-written" % (pid, lab, name))
+        return sm
     exp = e.expected()
     for name, spec in exp.items():
         if name not in sm.final:
@@ -54,6 +60,16 @@ def check_entry(S, e, rep, pid="C13", rules=("a", "b", "c")):
                    "deep-interior value differs from the documented form (%s): got %s" % (e.doc, short(got)) if not ok else e.doc,
                    key="%s.a|%s|%s|%s" % (pid, lab, name, short(got, 200)),
                    sample={"kernel": lab, "output": name, "region": "deep interior", "documented": e.doc})
+            # region: the outermost ring of the output is outside the documented region and must be left as it was
+            inner = fb.shrink(1)
+            ringbad = None
+            for box, x in cells:
+                if inner.intersect(box).is_empty() and not pw_equal(x, at(name, zero(fb.rank))):
+                    ringbad = "ring cell %r holds %s, documented: unchanged" % (box, short(x, 200))
+                    break
+            if "b" in rules:
+                rep.ob(pid + ".b", "%s:%s boundary ring untouched" % (lab, name), ringbad is None, ringbad or "outermost ring unchanged",
+                       key="%s.b|%s|%s|ring|%s" % (pid, lab, name, (ringbad or "")[:120]), nontrivial=False)
             continue
         bad_formula, bad_region = match_spec(cells, fb, spec)
         if "a" in rules:
@@ -65,6 +81,15 @@ def check_entry(S, e, rep, pid="C13", rules=("a", "b", "c")):
                    key="%s.b|%s|%s|%s" % (pid, lab, name, (bad_region or "")[:160]))
     if "c" in rules:
         extra_labels = {a.alloc.label for a in extra}
+        # the documented value is a function of the inputs: no output cell may hold what a scratch array contained before
+        for name in exp:
+            if name not in sm.final or name.split("[")[0].split(".")[0] in extra_labels:
+                continue
+            roots = roots_of(sm.store, [x for _, x in sm.final[name]])
+            stale = sorted(r for r in roots if r.split("[")[0].split(".")[0].split("'")[0] in extra_labels)
+            rep.ob(pid + ".c", "%s:%s independent of scratch contents" % (lab, name), not stale,
+                   "output depends on what %s held before the call" % stale if stale else "depends on the input arrays only",
+                   key="%s.c|%s|%s|stale|%s" % (pid, lab, name, stale), nontrivial=False)
         for name in sm.final:
             base = name.split("[")[0].split(".")[0]
             if name in exp or base in extra_labels:
